@@ -11,7 +11,10 @@ from vf.quiet import quiet
 MISUSE = ['foreign_var_constraint', 'foreign_var_mixed_expr', 'foreign_var_objective', 'foreign_constraint', 'foreign_set_forall',
           'foreign_set_minmax', 'foreign_rvar_in_expr', 'foreign_ambiguity_objective', 'foreign_ambiguity_forall', 'foreign_support_constraint',
           'objective_redefined', 'objective_nonscalar', 'read_unsolved_var', 'read_unsolved_model', 'read_infeasible', 'ambiguity_after_constraints',
-          'foreign_ldr', 'foreign_expectation', 'foreign_probability']
+          'foreign_ldr', 'foreign_expectation', 'foreign_probability',
+          'foreign_adapt_first', 'foreign_adapt_second', 'foreign_adapt_entry', 'foreign_concat', 'foreign_rstack', 'foreign_cstack', 'foreign_vec',
+          'foreign_concat_expr', 'foreign_rvar_concat',
+          'foreign_concat_rev', 'foreign_rstack_rev', 'foreign_cstack_rev', 'foreign_vec_rev', 'foreign_concat_expr_rev', 'foreign_rvar_concat_rev']
 
 
 @st.composite
@@ -115,6 +118,11 @@ def misuse(case):
     f1, f2 = case['fronts']
     A, B = make(f1, n), make(f2, n)
     mA, xA, zA = A['m'], A['x'], A['z']
+    if case.get('control'):
+        # positive control: the 'other' objects belong to the same model, so the same calls are legitimate and must go through
+        B = dict(A, x=mA.dvar(n))
+        if f1 == 'ro':
+            B['y'] = mA.ldr(n)
     xB, zB = B['x'], B['z']
     if case['when'] == 'after_solve' and w not in ('read_unsolved_var', 'read_unsolved_model', 'ambiguity_after_constraints', 'objective_redefined'):
         complete(B)
@@ -169,6 +177,41 @@ def misuse(case):
             return None
         yB = B['y']
         mA.st(yB + xA <= 1)
+    elif w in ('foreign_adapt_first', 'foreign_adapt_second', 'foreign_adapt_entry'):
+        # a decision rule of A made to depend on a random variable of B, as the first adapt() call, after a legitimate one,
+        # or entry by entry
+        if n == 1 and w != 'foreign_adapt_first':
+            return None                  # a second adapt() on the only entry is a redefinition whatever the operand
+        yA = A['y'] if f1 == 'ro' else mA.dvar(n)
+        A['y2'] = yA
+        if w == 'foreign_adapt_second':
+            yA.adapt(zA[0])
+            yA.adapt(zB[n - 1])
+        elif w == 'foreign_adapt_entry':
+            yA[0].adapt(zA[0])
+            yA[n - 1].adapt(zB[0])
+        else:
+            yA.adapt(zB)
+        mA.st(yA <= 5, yA >= -5)
+    elif w.replace('_rev', '') in ('foreign_concat', 'foreign_rstack', 'foreign_cstack', 'foreign_vec', 'foreign_concat_expr'):
+        # stacking helpers given operands of two models, own operand first or last (the result takes the model of one of them)
+        p, q = (xB, xA) if w.endswith('_rev') else (xA, xB)
+        w0 = w.replace('_rev', '')
+        if w0 == 'foreign_concat':
+            e = rso.concat((p, q))
+        elif w0 == 'foreign_rstack':
+            e = rso.rstack(p, q)
+        elif w0 == 'foreign_cstack':
+            e = rso.cstack(p.reshape((n, 1)), q.reshape((n, 1)))
+        elif w0 == 'foreign_vec':
+            e = rso.vec(p[0], q[0])
+        else:
+            e = rso.concat((2 * p + 1, q - 1))
+        mA.st(e <= 5)
+        mA.st(xA <= 1)
+    elif w in ('foreign_rvar_concat', 'foreign_rvar_concat_rev'):
+        e = rso.concat((zB, zA)) if w.endswith('_rev') else rso.concat((zA, zB))
+        mA.st(xA.sum() + e.sum() <= 100)
     elif w == 'objective_redefined':
         complete(A)
         if f1 == 'ro':
@@ -205,6 +248,8 @@ def misuse(case):
         mA.st(xA <= 1)
         mA.ambiguity()
         return 'ambiguity() after constraints was accepted'
+    if case.get('control'):
+        mA.st(xB >= 0, xB <= 1)
     complete(A)
     v = readable(A)
     return 'misuse %s went through solve(); model.get() = %r' % (w, v)
@@ -215,11 +260,12 @@ class C17(Prop):
     rule = ('(isolation) two models drawn independently from the deterministic (C06), robust (C01) and dro (C03) generators are built '
             'and solved in one process in six interleavings (A B sA sB / A B sB sA / A sA B sB sA / B A sA sB sA / ... with repeated '
             'solves of A after B was built or solved): every optimum must equal that of the same model built and solved alone. '
-            '(misuse) a catalogue of 19 misuse patterns x the four ro/dro combinations of the two models x use before/after the other '
+            '(misuse) a catalogue of 34 misuse patterns x the four ro/dro combinations of the two models x use before/after the other '
             'model was solved: foreign variable / LDR / random variable / expression / constraint / uncertainty set / ambiguity set / '
-            'support, expectation or probability constraint in every API position that accepts one, objective redefinition, '
+            'support, expectation or probability constraint in every API position that accepts one, adapt() on a foreign random variable (first call, '
+            'after a legitimate call, entry-wise), concat/rstack/cstack/vec over two models (own operand first or last), objective redefinition, '
             'non-scalar objective, reading an unsolved or infeasible model, ambiguity() after constraints: each must raise no later '
-            'than solve(), leaving no readable result. Non-trivial = isolation cases with >= 3 switches between the models, every '
+            'than solve(), leaving no readable result; every foreign-object pattern has a positive control (same calls, operands of one model) that must go through. Non-trivial = isolation cases with >= 3 switches between the models, every '
             'misuse case; distinct by IR hash.')
     assumptions = ['tolerance 1e-6 (LP) / 2e-4 (conic) relative for isolation; cone-solver failures are skipped']
 
@@ -285,6 +331,20 @@ class C17(Prop):
                             nt.append(case_hash(case))
                             if len(samples) < 2:
                                 samples.append(case)
+        # positive controls: the same calls with both operands from one model must go through, otherwise 'it raises' says nothing
+        herrs = []
+        for which in MISUSE:
+            if not which.startswith('foreign'):
+                continue
+            for f in ('ro', 'dro'):
+                for n in (1, 2):
+                    case = {'mode': 'misuse', 'which': which, 'fronts': [f, f], 'n': n, 'when': 'fresh', 'control': True}
+                    try:
+                        with quiet():
+                            misuse(case)
+                        labels['enum:control_ok'] = labels.get('enum:control_ok', 0) + 1
+                    except Exception as ex:
+                        herrs.append({'msg': 'positive control of %s (%s, n=%d) raised %r' % (which, f, n, ex), 'case': case})
         labels['enumerated_misuse_cases'] = count
         seen = {}
         uniq = []
@@ -292,7 +352,7 @@ class C17(Prop):
             if f['bucket'] not in seen:
                 seen[f['bucket']] = 1
                 uniq.append(f)
-        return {'evaluations': count, 'labels': labels, 'failures': uniq, 'harness_errors': [], 'nt_hashes': nt, 'samples': samples,
+        return {'evaluations': count, 'labels': labels, 'failures': uniq, 'harness_errors': herrs, 'nt_hashes': nt, 'samples': samples,
                 'coverage': {'exhaustive_misuse_catalogue': '%d patterns x 4 front-end pairs x 2 timings x 2 sizes' % len(MISUSE)}}
 
 
